@@ -1,6 +1,7 @@
 import HioModel.Memo.RendLemmas
 import HioModel.Memo.AsmLemmas
 import HioModel.Memo.HeadLemmas
+import HioModel.Memo.B2Lemmas
 /-!
 # C20 — memos survive segmentation into grams and any delivery order
 
@@ -13,12 +14,16 @@ order / duplication / interleaving / batching, the receiver delivers the memo ex
 signer id, and never when a gram is missing.
 
 What is proved here (all unbounded):
-* sender (`rend_fuse`): for every configuration in which `rend` succeeds the bodies of the grams, in gram-number order, concatenate
-  to the memo, none is empty, their number is the number of grams and is what the count field encodes, and each gram is
-  header ++ body (++ signature);
-* receiver (`reassembly_*`, `never_incomplete`, `delivered_content`, `exactly_once_unless_replayed`): over sequences of grams that
-  `pick` ACCEPTED (parsed grams), for one memo among ARBITRARY other traffic with other memo ids.
-The two are joined, and the byte-level parse of a genuine gram is covered, by the differential end-to-end run (harness/props/C20.py).
+* configuration histories (`setters_legal`, `size_setter_spec`, `rend_fuse_after_history`): constructor + any `.code/.curt/.size` assignments
+  keep the stored gram size legal for the code and encoding in force;
+* sender (`rend_fuse`): the bodies of the grams, in gram-number order, concatenate to the memo, none is empty, their number is the number of
+  grams and is what the count field encodes, each gram is header ++ body (++ signature);
+* header codec (`header_roundtrip_b64*`, `header_roundtrip_b2*`) and rend → pick (`grams_parse_b64`, `grams_parse_b2`, `grams_parse_b64_signed`);
+* receiver (`reassembly_one_batch`, `never_incomplete`, `delivered_content`, `delivered_when_complete`, `exactly_once_history`,
+  `exactly_once_unless_replayed`): over sequences of grams that `pick` ACCEPTED, for one memo among ARBITRARY other traffic with other ids;
+* composed end to end on the model functions themselves (`end_to_end_unsigned_b64`, `end_to_end_unsigned_b2`, `end_to_end_signed_b64`):
+  rend → any delivery order with duplicates → `serviceAllRx()` on an empty receiver → exactly `[(memo, source, vid)]` iff every gram arrived.
+Correspondence only: signed grams with Base2 headers end to end; several rendered memos interleaved in the composed statements.
 
 Known findings, stated as they are in the theorems' guards:
 * K3 (F33): "exactly once" holds unless a complete set of the memo's grams arrives again after delivery
@@ -175,6 +180,64 @@ theorem header_roundtrip_later_signed (authic : Bool) (vidOf : Bytes → Option 
     rw [this]
     simp [classify, hz', hg', pickTail, hutf, e1, hvo, hver, hsne]
 
+/-- header_roundtrip, Base2 (`curt`) headers, every code of the regenerated table, signed or not: a datagram laid out as `rend` lays it out
+with binary headers — the code's three bytes, the number as `n.to_bytes(nz)`, raw mid / vid parts, body, raw signature, each `3/4` of its
+text size — is parsed by `pick` into: the code (`codeB2ToB64`), the number `n` (`int.from_bytes`), mid / vid / signature RE-ENCODED as
+Base64 text (`encodeB64`), signed part = everything before the signature, body = what lies between -/
+theorem header_roundtrip_b2 (authic : Bool) (vidOf : Bytes → Option Bytes) (V : Bytes → Bytes → Bytes → Except Exn Unit)
+    (code codeb numb midb vidb body sigraw : Bytes) (s : Sizage) (n : Nat)
+    (hs : sizesOf code = .ok s) (hau : authic = true → Gen.authDex.contains code = true)
+    (hcodeb : decodeB64 code = some codeb) (hnum : numField true n s.scale.nz = .ok numb)
+    (hmid : midb.length = s.scale.mz) (hvid : vidb.length = s.scale.vz) (hsig : sigraw.length = s.scale.az) :
+    pick authic vidOf V (codeb ++ (numb ++ (midb ++ (vidb ++ (body ++ sigraw))))) =
+      match classify code vidOf n (encodeB64 midb) (encodeB64 vidb) true with
+      | .error e => .error e
+      | .ok (gn, gc, vid) =>
+        pickTail V (encodeB64 midb) vid true gn gc (if s.scale.az = 0 then [] else encodeB64 sigraw)
+          (codeb ++ (numb ++ (midb ++ (vidb ++ body)))) body := by
+  obtain ⟨cb, h1, h2, h3, h4⟩ := code_wire_b2 code s hs
+  rw [hcodeb] at h1; cases h1
+  have hn : numb.length = s.scale.nz ∧ B64.fromBytes numb = n := by
+    simp only [numField, if_true, B64.toBytes] at hnum
+    split at hnum
+    · rename_i hlt
+      simp only [liftB64] at hnum; cases hnum
+      exact ⟨B64.beBytes_length _ _, B64.fromBytes_beBytes _ _ hlt⟩
+    · simp [liftB64] at hnum
+  have := pick_layout_b2 authic vidOf V code codeb numb midb vidb body sigraw s hs hau h2 h3 h4 hn.1 hmid hvid hsig
+  rw [hn.2] at this
+  exact this
+
+/-- … unsigned zeroth gram with binary headers: `(mid as text, no vid, gram number 0, count n, body)` whatever the receiver state -/
+theorem header_roundtrip_b2_zeroth_unsigned (vidOf : Bytes → Option Bytes) (V : Bytes → Bytes → Bytes → Except Exn Unit)
+    (code codeb numb midb body : Bytes) (s : Sizage) (n : Nat)
+    (hs : sizesOf code = .ok s) (hz : Gen.zeroDex.contains code = true) (hv : s.vz = 0) (ha : s.az = 0)
+    (hcodeb : decodeB64 code = some codeb) (hnum : numField true n s.scale.nz = .ok numb) (hmid : midb.length = s.scale.mz) :
+    pick false vidOf V (codeb ++ (numb ++ (midb ++ body))) = .ok ⟨encodeB64 midb, none, 0, some n, body⟩ := by
+  have hv' : s.scale.vz = 0 := by simp [Sizage.scale, hv]
+  have ha' : s.scale.az = 0 := by simp [Sizage.scale, ha]
+  have := header_roundtrip_b2 false vidOf V code codeb numb midb [] body [] s n hs (by simp) hcodeb hnum hmid (by simp [hv']) (by simp [ha'])
+  simp only [List.nil_append, List.append_nil] at this
+  rw [this]
+  have hz' : code ∈ Gen.zeroDex := by simpa using hz
+  simp [classify, hz', pickTail, ha', encodeB64]
+
+/-- … unsigned later gram with binary headers, when the receiver holds no vid for that memo id -/
+theorem header_roundtrip_b2_later_unsigned (vidOf : Bytes → Option Bytes) (V : Bytes → Bytes → Bytes → Except Exn Unit)
+    (code codeb numb midb body : Bytes) (s : Sizage) (n : Nat)
+    (hs : sizesOf code = .ok s) (hz : Gen.zeroDex.contains code = false) (hg : Gen.gramDex.contains code = true) (hv : s.vz = 0) (ha : s.az = 0)
+    (hcodeb : decodeB64 code = some codeb) (hnum : numField true n s.scale.nz = .ok numb) (hmid : midb.length = s.scale.mz)
+    (hvo : vidOf (encodeB64 midb) = none) :
+    pick false vidOf V (codeb ++ (numb ++ (midb ++ body))) = .ok ⟨encodeB64 midb, none, n, none, body⟩ := by
+  have hv' : s.scale.vz = 0 := by simp [Sizage.scale, hv]
+  have ha' : s.scale.az = 0 := by simp [Sizage.scale, ha]
+  have := header_roundtrip_b2 false vidOf V code codeb numb midb [] body [] s n hs (by simp) hcodeb hnum hmid (by simp [hv']) (by simp [ha'])
+  simp only [List.nil_append, List.append_nil] at this
+  rw [this]
+  have hz' : code ∉ Gen.zeroDex := by simpa using hz
+  have hg' : code ∈ Gen.gramDex := by simpa using hg
+  simp [classify, hz', hg', pickTail, ha', encodeB64, hvo]
+
 /-- the fuse pass treats every memo id independently (this is what lets one memo be followed through arbitrary other traffic):
 `_serviceOnceRxGrams` keeps exactly the entries that `stays` and queues exactly `deliv` of each entry, in order -/
 theorem fuse_pass_per_entry (es : List Entry) : fuseAll es = .ok (es.filter stays, es.filterMap deliv) :=
@@ -300,6 +363,373 @@ theorem exactly_once_unless_replayed (S : SMemo) (hn : 1 ≤ S.bodies.length) (h
   · exact absurd (fun i hi => Or.inr (hall i hi)) hnot
   · refine ⟨runS S bs ((storeAll b es).filter stays), by simp [runS, ho], ?_⟩
     exact never_incomplete S hn hu bs _ h1 h2 hgs j hj (noEntry_noKey S _ hf j) hnever
+
+/-- EXACTLY ONCE over a whole history, one packaged statement (under the guard of K3 / F33).  A receiver that holds nothing for the memo's id
+sees any history of service batches `pre ++ [b] ++ post` of accepted grams — any order, duplicates, arbitrary other traffic, the memo's grams
+spread over the batches — such that after `pre` some gram number is still missing, with `b` every gram number has arrived, and afterwards at
+least one gram number never arrives again.  Then the memo's entry delivers nothing during `pre`, delivers the memo — the bodies concatenated,
+its source, its signer id — at the end of `b`, and nothing ever after: exactly one delivery, at exactly the batch that completes it. -/
+theorem exactly_once_history (S : SMemo) (hn : 1 ≤ S.bodies.length) (hu : utf8Valid S.bodies.flatten = true)
+    (pre post : List (List (PG × Nat))) (b : List (PG × Nat)) (es : List Entry) (hnd : MidsNodup es) (hno : findEntry S.mid es = none)
+    (hgpre : ∀ b' ∈ pre, Genuine S b') (hgb : Genuine S b) (hgpost : ∀ b' ∈ post, Genuine S b')
+    (j0 : Nat) (hj0 : j0 < S.bodies.length) (hmiss : j0 ∉ idx S pre.flatten)
+    (hall : ∀ i, i < S.bodies.length → i ∈ idx S (pre.flatten ++ b))
+    (j : Nat) (hj : j < S.bodies.length) (hnever : ∀ b' ∈ post, j ∉ idx S b') :
+    runS S (pre ++ b :: post) es =
+      List.replicate pre.length none ++ some ⟨S.bodies.flatten, S.src, S.vid⟩ :: List.replicate post.length none := by
+  obtain ⟨r1, r2, r3, r4⟩ := runS_incomplete_prefix S hn hu pre es hnd (noEntry_SInv S es hno) hgpre j0 hj0 (noEntry_noKey S es hno j0) hmiss
+  rw [runS_append, r1]
+  congr 1
+  have hb := batch_step S hn hu b (stateAfter pre es) r2 r3 hgb
+  simp only at hb
+  obtain ⟨h1, h2, hcase⟩ := hb
+  have hall' : ∀ i, i < S.bodies.length → keyOf S (stateAfter pre es) i ∨ i ∈ idx S b := by
+    intro i hi
+    have := hall i hi
+    rw [idx_append, List.mem_append] at this
+    rcases this with h | h
+    · left; exact (r4 i).mpr (Or.inr h)
+    · right; exact h
+  rcases hcase with ⟨_, _, hnot⟩ | ⟨ho, hf, _⟩
+  · exact absurd hall' hnot
+  · simp only [runS, ho]
+    congr 1
+    have hnone := never_incomplete S hn hu post _ h1 h2 hgpost j hj (noEntry_noKey S _ hf j) hnever
+    exact List.eq_replicate_iff.mpr ⟨runS_length S post _, hnone⟩
+
+/-- rend → pick, unsigned codes, Base64 text headers: EVERY gram `rend` produces is parsed back by `pick` — in any receiver state that holds
+no vid for the memo id — into its fields: the memo id, no vid, its gram number, the count (zeroth gram only), and exactly the body `rend` cut -/
+theorem grams_parse_b64 (cfg : TxCfg) (hleg : Legal cfg) (hc : cfg.curt = false) (sign : Bytes → Bytes → Except Exn Bytes)
+    (memo : Bytes) (vid : Option Bytes) (mid : Bytes) (grams : List Bytes) (hne : memo ≠ []) (hmu : utf8Valid mid = true)
+    (zs ns : Sizage) (ncode : Bytes) (hzs : sizesOf cfg.code = .ok zs) (hp : lookupPair cfg.code = .ok ncode) (hns : sizesOf ncode = .ok ns)
+    (hu : zs.vz = 0 ∧ zs.az = 0 ∧ ns.vz = 0 ∧ ns.az = 0) (h : rend cfg sign memo vid mid = .ok grams) :
+    ∃ bs : List Bytes, bs.flatten = memo ∧ grams.length = bs.length ∧ 1 ≤ bs.length ∧
+      ∀ i (hi : i < grams.length) (vidOf : Bytes → Option Bytes) (V : Bytes → Bytes → Bytes → Except Exn Unit), vidOf mid = none →
+        pick false vidOf V grams[i] = .ok ⟨mid, none, i, if i = 0 then some bs.length else none, bs.getD i []⟩ := by
+  obtain ⟨pl, hpl, hflat, hbnd, hlen, hcnt, hg0, hgi⟩ := rend_fuse cfg sign memo vid mid grams hleg hne h
+  obtain ⟨zs', ncode', ns', e1, e2, e3, hml, w1, w2, w3, f1, f2, f3, f4, f5, _, _, _⟩ := rendPlan_fields cfg memo.length vid mid pl hpl
+  rw [hzs] at e1; cases e1
+  rw [hp] at e2; cases e2
+  rw [hns] at e3; cases e3
+  obtain ⟨p1, p2, p3, p4, p5, p6, p7, p8, _, _, _, _⟩ := pair_facts cfg.code ncode zs ns hp hzs hns
+  obtain ⟨_, hnb, _, hmms⟩ := rendPlan_ok cfg memo.length vid mid pl hleg hpl
+  have hwz : pl.zcodeb = cfg.code := by simp [wireOf, hc] at w1; exact w1.symm
+  have hwn : pl.ncodeb = ncode := by simp [wireOf, hc] at w2; exact w2.symm
+  have hwm : pl.midb = mid := by simp [wireOf, hc] at w3; exact w3.symm
+  have hnz : pl.nz = zs.nz := by simp [zszOf, hc] at f1; exact f1
+  have hzv : pl.zWithVid = false := by simp [zszOf, hc, hu.1] at f2; exact f2
+  have hza : pl.zSigned = false := by simp [zszOf, hc, hu.2.1] at f3; exact f3
+  have hnv : pl.nWithVid = false := by simp [hu.2.2.1] at f4; exact f4
+  have hna : pl.nSigned = false := by simp [hu.2.2.2] at f5; exact f5
+  have hge1 : 1 ≤ (bodies pl.zbz pl.nbz memo).length := by
+    rw [bodies_length pl.zbz pl.nbz memo hne hnb]
+    unfold gramCount; split
+    · exact Nat.le_refl 1
+    · exact Nat.le_add_right 1 _
+  have hcap : grams.length < 64 ^ zs.nz := by
+    rw [hlen, bodies_length pl.zbz pl.nbz memo hne hnb]
+    exact Nat.lt_of_le_of_lt (gramCount_le _ _ _ _ p5 hnb hmms) p4
+  refine ⟨bodies pl.zbz pl.nbz memo, hflat, hlen, hge1, ?_⟩
+  intro i hi vidOf V hvo
+  have hib : i < (bodies pl.zbz pl.nbz memo).length := by omega
+  have hgetD : (bodies pl.zbz pl.nbz memo).getD i [] = (bodies pl.zbz pl.nbz memo)[i] := by
+    simp [List.getD_eq_getElem?_getD, List.getElem?_eq_getElem hib]
+  rw [hgetD]
+  cases i with
+  | zero =>
+    have hg := hg0 hib hi
+    simp only [mkGram, hzv, hza, hwz, hwm, Bool.false_eq_true, if_false, List.append_nil] at hg
+    rw [← Except.ok.inj hg]
+    have := header_roundtrip_zeroth_unsigned vidOf V cfg.code pl.gcnt mid (bodies pl.zbz pl.nbz memo)[0] zs grams.length hzs p6 hu.1 hu.2.1 p3 hcap
+      (by rw [← hnz, ← hc]; exact hcnt) hml hmu
+    simp only [List.append_assoc] at this ⊢
+    rw [this, hlen]; simp
+  | succ k =>
+    obtain ⟨num, hnum, hg⟩ := hgi k hib hi
+    simp only [mkGram, hnv, hna, hwn, hwm, Bool.false_eq_true, if_false, List.append_nil] at hg
+    rw [← Except.ok.inj hg]
+    have := header_roundtrip_later_unsigned vidOf V ncode num mid (bodies pl.zbz pl.nbz memo)[k + 1] ns (k + 1) hns p7 p8 hu.2.2.1 hu.2.2.2
+      (by omega) (by rw [p1]; omega) (by rw [p1, ← hnz, ← hc]; exact hnum) (by rw [p2]; exact hml) hmu hvo
+    simp only [List.append_assoc] at this ⊢
+    rw [this]; simp
+
+/-- rend → pick, unsigned codes, Base2 (`curt`) headers: every gram `rend` produces is parsed back into its fields; the memo id comes back as
+the Base64 text of the raw id bytes on the wire -/
+theorem grams_parse_b2 (cfg : TxCfg) (hleg : Legal cfg) (hc : cfg.curt = true) (sign : Bytes → Bytes → Except Exn Bytes)
+    (memo : Bytes) (vid : Option Bytes) (mid : Bytes) (grams : List Bytes) (hne : memo ≠ [])
+    (zs ns : Sizage) (ncode : Bytes) (hzs : sizesOf cfg.code = .ok zs) (hp : lookupPair cfg.code = .ok ncode) (hns : sizesOf ncode = .ok ns)
+    (hu : zs.vz = 0 ∧ zs.az = 0 ∧ ns.vz = 0 ∧ ns.az = 0) (h : rend cfg sign memo vid mid = .ok grams) :
+    ∃ (bs : List Bytes) (midb : Bytes), decodeB64 mid = some midb ∧ bs.flatten = memo ∧ grams.length = bs.length ∧ 1 ≤ bs.length ∧
+      ∀ i (hi : i < grams.length) (vidOf : Bytes → Option Bytes) (V : Bytes → Bytes → Bytes → Except Exn Unit), vidOf (encodeB64 midb) = none →
+        pick false vidOf V grams[i] = .ok ⟨encodeB64 midb, none, i, if i = 0 then some bs.length else none, bs.getD i []⟩ := by
+  obtain ⟨pl, hpl, hflat, hbnd, hlen, hcnt, hg0, hgi⟩ := rend_fuse cfg sign memo vid mid grams hleg hne h
+  obtain ⟨zs', ncode', ns', e1, e2, e3, hml, w1, w2, w3, f1, f2, f3, f4, f5, _, _, _⟩ := rendPlan_fields cfg memo.length vid mid pl hpl
+  rw [hzs] at e1; cases e1
+  rw [hp] at e2; cases e2
+  rw [hns] at e3; cases e3
+  obtain ⟨p1, p2, p3, p4, p5, p6, p7, p8, p9, _, _, _⟩ := pair_facts cfg.code ncode zs ns hp hzs hns
+  obtain ⟨_, hnb, _, hmms⟩ := rendPlan_ok cfg memo.length vid mid pl hleg hpl
+  have dz : decodeB64 cfg.code = some pl.zcodeb := by
+    simp only [wireOf, hc, if_true, decodeOrRaise] at w1; split at w1 <;> simp_all
+  have dn : decodeB64 ncode = some pl.ncodeb := by
+    simp only [wireOf, hc, if_true, decodeOrRaise] at w2; split at w2 <;> simp_all
+  have dm : decodeB64 mid = some pl.midb := by
+    simp only [wireOf, hc, if_true, decodeOrRaise] at w3; split at w3 <;> simp_all
+  have hmlen : pl.midb.length = zs.scale.mz := by
+    have := decodeB64_length mid pl.midb dm
+    simp only [Sizage.scale]; omega
+  have hnz : pl.nz = zs.scale.nz := by simp [zszOf, hc] at f1; exact f1
+  have hzv : pl.zWithVid = false := by simp [zszOf, hc, Sizage.scale, hu.1] at f2; exact f2
+  have hza : pl.zSigned = false := by simp [zszOf, hc, Sizage.scale, hu.2.1] at f3; exact f3
+  have hnv : pl.nWithVid = false := by simp [hu.2.2.1] at f4; exact f4
+  have hna : pl.nSigned = false := by simp [hu.2.2.2] at f5; exact f5
+  have hge1 : 1 ≤ (bodies pl.zbz pl.nbz memo).length := by
+    rw [bodies_length pl.zbz pl.nbz memo hne hnb]
+    unfold gramCount; split
+    · exact Nat.le_refl 1
+    · exact Nat.le_add_right 1 _
+  refine ⟨bodies pl.zbz pl.nbz memo, pl.midb, dm, hflat, hlen, hge1, ?_⟩
+  intro i hi vidOf V hvo
+  have hib : i < (bodies pl.zbz pl.nbz memo).length := by omega
+  have hgetD : (bodies pl.zbz pl.nbz memo).getD i [] = (bodies pl.zbz pl.nbz memo)[i] := by
+    simp [List.getD_eq_getElem?_getD, List.getElem?_eq_getElem hib]
+  rw [hgetD]
+  cases i with
+  | zero =>
+    have hg := hg0 hib hi
+    simp only [mkGram, hzv, hza, Bool.false_eq_true, if_false, List.append_nil] at hg
+    rw [← Except.ok.inj hg]
+    have := header_roundtrip_b2_zeroth_unsigned vidOf V cfg.code pl.zcodeb pl.gcnt pl.midb (bodies pl.zbz pl.nbz memo)[0] zs grams.length
+      hzs p6 hu.1 hu.2.1 dz (by rw [← hnz, ← hc]; exact hcnt) hmlen
+    simp only [List.append_assoc] at this ⊢
+    rw [this, hlen]; simp
+  | succ k =>
+    obtain ⟨num, hnum, hg⟩ := hgi k hib hi
+    simp only [mkGram, hnv, hna, Bool.false_eq_true, if_false, List.append_nil] at hg
+    rw [← Except.ok.inj hg]
+    have hsn : ns.scale.nz = zs.scale.nz := by simp [Sizage.scale, p1]
+    have hsm : ns.scale.mz = zs.scale.mz := by simp [Sizage.scale, p2]
+    have := header_roundtrip_b2_later_unsigned vidOf V ncode pl.ncodeb num pl.midb (bodies pl.zbz pl.nbz memo)[k + 1] ns (k + 1)
+      hns p7 p8 hu.2.2.1 hu.2.2.2 dn (by rw [hsn, ← hnz, ← hc]; exact hnum) (by rw [hsm]; exact hmlen) hvo
+    simp only [List.append_assoc] at this ⊢
+    rw [this]; simp
+
+/-- the receiver half of every end-to-end statement: a queue that `pick` accepts as the grams `is` of the memo `S`, handed to an empty
+receiver in one `serviceAllRx()` — nothing raises, the queue is consumed, the receiver delivers EXACTLY `[(text, source, vid)]` when every
+gram number occurs in `is` (and keeps nothing), and NOTHING when one is missing -/
+theorem end_to_end_of_picks (authic : Bool) (S : SMemo) (hn : 1 ≤ S.bodies.length) (hu : utf8Valid S.bodies.flatten = true)
+    (V : Bytes → Bytes → Bytes → Except Exn Unit) (q : List (Bytes × Nat)) (is : List Nat) (his : ∀ i ∈ is, i < S.bodies.length)
+    (hpk : picks authic V q [] = some (is.map fun i => (S.gram i, S.src))) :
+    ∃ o, serviceAllRx authic V [] q = .ok o ∧ o.queue = [] ∧
+      ((∀ i, i < S.bodies.length → i ∈ is) → o.delivered = [⟨S.bodies.flatten, S.src, S.vid⟩] ∧ o.entries = []) ∧
+      (¬ (∀ i, i < S.bodies.length → i ∈ is) → o.delivered = []) := by
+  have hnd0 : MidsNodup [] := by simp [MidsNodup]
+  have hsvc := service_is_store_then_fuse authic V _ [] _ hpk
+  refine ⟨_, hsvc, rfl, ?_⟩
+  have hgen := genuine_map_gram S is his
+  obtain ⟨hnd1, hyes, hno⟩ := reassembly_one_batch S hn hu [] hnd0 rfl _ hgen
+  rw [idx_map_gram] at hyes hno
+  have honly := storeAll_only S.mid (is.map fun i => (S.gram i, S.src)) [] (by
+    intro x hx; obtain ⟨i, _, rfl⟩ := List.mem_map.mp hx; rfl) (by intro e he; cases he)
+  rcases single_entry S.mid _ hnd1 honly with hnil | ⟨e, he⟩
+  · simp only [hnil] at hyes hno ⊢
+    constructor
+    · intro hall; have := (hyes hall).1; simp [findEntry] at this
+    · intro _; rfl
+  · have hem : e.mid = S.mid := honly e (by rw [he]; exact List.mem_cons_self)
+    simp only [he] at hyes hno ⊢
+    have hfe : findEntry S.mid [e] = some e := by simp [findEntry, hem]
+    rw [hfe] at hyes hno
+    simp only [Option.bind_some] at hyes hno
+    constructor
+    · intro hall
+      obtain ⟨h1, h2⟩ := hyes hall
+      have hst : stays e = false := by
+        rw [findEntry_filter stays S.mid [e] (by rw [← he]; exact hnd1), hfe] at h2
+        simp only at h2
+        cases hs : stays e with
+        | false => rfl
+        | true => rw [hs] at h2; simp at h2
+      simp [List.filterMap, h1, List.filter, hst]
+    · intro hnall
+      simp [List.filterMap, hno hnall]
+
+/-- generic composition, memo without signer id: the grams are `G 0 … G (n-1)`, each parsed by `pick` (in any state holding no vid for the memo
+id) into gram `i` of `S`; ANY delivery sequence `is` of gram numbers — any order, any duplicates -/
+theorem end_to_end_generic (S : SMemo) (hn : 1 ≤ S.bodies.length) (hu : utf8Valid S.bodies.flatten = true) (hv : S.vid = none)
+    (V : Bytes → Bytes → Bytes → Except Exn Unit) (G : Nat → Bytes)
+    (hG : ∀ i, i < S.bodies.length → ∀ vidOf : Bytes → Option Bytes, vidOf S.mid = none → pick false vidOf V (G i) = .ok (S.gram i))
+    (is : List Nat) (his : ∀ i ∈ is, i < S.bodies.length) :
+    ∃ o, serviceAllRx false V [] (is.map fun i => (G i, S.src)) = .ok o ∧ o.queue = [] ∧
+      ((∀ i, i < S.bodies.length → i ∈ is) → o.delivered = [⟨S.bodies.flatten, S.src, S.vid⟩] ∧ o.entries = []) ∧
+      (¬ (∀ i, i < S.bodies.length → i ∈ is) → o.delivered = []) :=
+  end_to_end_of_picks false S hn hu V _ is his (picks_genuine S hv V G hG is his [] (noEntry_SInv S [] rfl))
+
+/-- generic composition, signed memo, under the guard of K2 (F32) that the zeroth gram comes FIRST: the zeroth gram is accepted in any state,
+every gram is accepted once the receiver holds the memo's vid; then ANY order and duplication of the rest -/
+theorem end_to_end_generic_zeroth_first (authic : Bool) (S : SMemo) (hn : 1 ≤ S.bodies.length) (hu : utf8Valid S.bodies.flatten = true)
+    (V : Bytes → Bytes → Bytes → Except Exn Unit) (G : Nat → Bytes)
+    (hG0 : ∀ vidOf : Bytes → Option Bytes, pick authic vidOf V (G 0) = .ok (S.gram 0))
+    (hG : ∀ i, i < S.bodies.length → ∀ vidOf : Bytes → Option Bytes, vidOf S.mid = S.vid → pick authic vidOf V (G i) = .ok (S.gram i))
+    (rest : List Nat) (his : ∀ i ∈ rest, i < S.bodies.length) :
+    ∃ o, serviceAllRx authic V [] ((0 :: rest).map fun i => (G i, S.src)) = .ok o ∧ o.queue = [] ∧
+      ((∀ i, i < S.bodies.length → i ∈ 0 :: rest) → o.delivered = [⟨S.bodies.flatten, S.src, S.vid⟩] ∧ o.entries = []) ∧
+      (¬ (∀ i, i < S.bodies.length → i ∈ 0 :: rest) → o.delivered = []) :=
+  end_to_end_of_picks authic S hn hu V _ (0 :: rest)
+    (by intro i hi; rcases List.mem_cons.mp hi with rfl | hi
+        · omega
+        · exact his i hi)
+    (picks_zeroth_first authic S hn V G hG0 hG rest his [] (noEntry_SInv S [] rfl))
+
+/-- END TO END, unsigned codes with Base64 text headers: for ANY configuration history ending in such a code, ANY non-empty memo `rend`
+accepts, and ANY delivery sequence of its grams (order, duplicates) to an empty receiver in one service call: the memo is delivered exactly
+once — same text, same source, no signer id — if and only if every gram is in the sequence; with a gram missing nothing is delivered -/
+theorem end_to_end_unsigned_b64 (cfg : TxCfg) (hleg : Legal cfg) (hc : cfg.curt = false) (sign : Bytes → Bytes → Except Exn Bytes)
+    (memo : Bytes) (vid : Option Bytes) (mid : Bytes) (grams : List Bytes) (hne : memo ≠ []) (hmu : utf8Valid mid = true)
+    (hmemo : utf8Valid memo = true)
+    (zs ns : Sizage) (ncode : Bytes) (hzs : sizesOf cfg.code = .ok zs) (hp : lookupPair cfg.code = .ok ncode) (hns : sizesOf ncode = .ok ns)
+    (hu : zs.vz = 0 ∧ zs.az = 0 ∧ ns.vz = 0 ∧ ns.az = 0) (h : rend cfg sign memo vid mid = .ok grams)
+    (src : Nat) (V : Bytes → Bytes → Bytes → Except Exn Unit) (is : List Nat) (his : ∀ i ∈ is, i < grams.length) :
+    ∃ o, serviceAllRx false V [] (is.map fun i => (grams.getD i [], src)) = .ok o ∧ o.queue = [] ∧
+      ((∀ i, i < grams.length → i ∈ is) → o.delivered = [⟨memo, src, none⟩] ∧ o.entries = []) ∧
+      (¬ (∀ i, i < grams.length → i ∈ is) → o.delivered = []) := by
+  obtain ⟨bs, hflat, hlen, hge, hparse⟩ := grams_parse_b64 cfg hleg hc sign memo vid mid grams hne hmu zs ns ncode hzs hp hns hu h
+  have := end_to_end_generic ⟨mid, bs, src, none⟩ hge (by simpa [hflat] using hmemo) rfl V (fun i => grams.getD i [])
+    (by
+      intro i hi vidOf hvo
+      have hig : i < grams.length := by rw [hlen]; exact hi
+      have := hparse i hig vidOf V hvo
+      simp only [List.getD_eq_getElem?_getD, List.getElem?_eq_getElem hig, Option.getD_some]
+      rw [this]; rfl)
+    is (by intro i hi; have := his i hi; simpa [← hlen] using this)
+  simpa [hflat, ← hlen] using this
+
+/-- END TO END, unsigned codes with Base2 (`curt`) headers — same statement as `end_to_end_unsigned_b64` -/
+theorem end_to_end_unsigned_b2 (cfg : TxCfg) (hleg : Legal cfg) (hc : cfg.curt = true) (sign : Bytes → Bytes → Except Exn Bytes)
+    (memo : Bytes) (vid : Option Bytes) (mid : Bytes) (grams : List Bytes) (hne : memo ≠ []) (hmemo : utf8Valid memo = true)
+    (zs ns : Sizage) (ncode : Bytes) (hzs : sizesOf cfg.code = .ok zs) (hp : lookupPair cfg.code = .ok ncode) (hns : sizesOf ncode = .ok ns)
+    (hu : zs.vz = 0 ∧ zs.az = 0 ∧ ns.vz = 0 ∧ ns.az = 0) (h : rend cfg sign memo vid mid = .ok grams)
+    (src : Nat) (V : Bytes → Bytes → Bytes → Except Exn Unit) (is : List Nat) (his : ∀ i ∈ is, i < grams.length) :
+    ∃ o, serviceAllRx false V [] (is.map fun i => (grams.getD i [], src)) = .ok o ∧ o.queue = [] ∧
+      ((∀ i, i < grams.length → i ∈ is) → o.delivered = [⟨memo, src, none⟩] ∧ o.entries = []) ∧
+      (¬ (∀ i, i < grams.length → i ∈ is) → o.delivered = []) := by
+  obtain ⟨bs, midb, _, hflat, hlen, hge, hparse⟩ := grams_parse_b2 cfg hleg hc sign memo vid mid grams hne zs ns ncode hzs hp hns hu h
+  have := end_to_end_generic ⟨encodeB64 midb, bs, src, none⟩ hge (by simpa [hflat] using hmemo) rfl V (fun i => grams.getD i [])
+    (by
+      intro i hi vidOf hvo
+      have hig : i < grams.length := by rw [hlen]; exact hi
+      have := hparse i hig vidOf V hvo
+      simp only [List.getD_eq_getElem?_getD, List.getElem?_eq_getElem hig, Option.getD_some]
+      rw [this]; rfl)
+    is (by intro i hi; have := his i hi; simpa [← hlen] using this)
+  simpa [hflat, ← hlen] using this
+
+/-- rend → pick, SIGNED codes, Base64 text headers.  Assumption on the signature scheme (hypothesis `hsv`, never an axiom): what `sign` returns
+for the signer id has the signature size of the table and passes `verify` for that id and that signed part.  Then the zeroth gram is parsed back in
+ANY receiver state, and every later gram in any state that holds the memo's vid (K2 / F32: in a state that does not, it is rejected —
+`header_roundtrip_later_signed`) -/
+theorem grams_parse_b64_signed (authic : Bool) (cfg : TxCfg) (hleg : Legal cfg) (hc : cfg.curt = false) (sign : Bytes → Bytes → Except Exn Bytes)
+    (memo vidt mid : Bytes) (grams : List Bytes) (hne : memo ≠ []) (hmu : utf8Valid mid = true) (hvu : utf8Valid vidt = true)
+    (zs ns : Sizage) (ncode : Bytes) (hzs : sizesOf cfg.code = .ok zs) (hp : lookupPair cfg.code = .ok ncode) (hns : sizesOf ncode = .ok ns)
+    (hs : zs.vz ≠ 0 ∧ zs.az ≠ 0) (V : Bytes → Bytes → Bytes → Except Exn Unit)
+    (hsv : ∀ ser sig, sign vidt ser = .ok sig → sig.length = zs.az ∧ V vidt sig ser = .ok ())
+    (h : rend cfg sign memo (some vidt) mid = .ok grams) :
+    ∃ bs : List Bytes, bs.flatten = memo ∧ grams.length = bs.length ∧ 1 ≤ bs.length ∧
+      ∀ i (hi : i < grams.length) (vidOf : Bytes → Option Bytes), (i = 0 ∨ vidOf mid = some vidt) →
+        pick authic vidOf V grams[i] = .ok ⟨mid, some vidt, i, if i = 0 then some bs.length else none, bs.getD i []⟩ := by
+  obtain ⟨pl, hpl, hflat, hbnd, hlen, hcnt, hg0, hgi⟩ := rend_fuse cfg sign memo (some vidt) mid grams hleg hne h
+  obtain ⟨zs', ncode', ns', e1, e2, e3, hml, w1, w2, w3, f1, f2, f3, f4, f5, v1, v2, v3⟩ := rendPlan_fields cfg memo.length (some vidt) mid pl hpl
+  rw [hzs] at e1; cases e1
+  rw [hp] at e2; cases e2
+  rw [hns] at e3; cases e3
+  obtain ⟨p1, p2, p3, p4, p5, p6, p7, p8, _, p10, p11, p12⟩ := pair_facts cfg.code ncode zs ns hp hzs hns
+  obtain ⟨ha1, ha2⟩ := p12 hs.2
+  obtain ⟨_, hnb, _, hmms⟩ := rendPlan_ok cfg memo.length (some vidt) mid pl hleg hpl
+  simp only [Option.getD_some] at v1 v2 v3
+  obtain ⟨hvne, hvlen⟩ := v3 hs.1
+  have hwz : pl.zcodeb = cfg.code := by simp [wireOf, hc] at w1; exact w1.symm
+  have hwn : pl.ncodeb = ncode := by simp [wireOf, hc] at w2; exact w2.symm
+  have hwm : pl.midb = mid := by simp [wireOf, hc] at w3; exact w3.symm
+  have hwv : pl.vidb = vidt := by simp [wireOf, hc] at v2; exact v2.symm
+  have hnz : pl.nz = zs.nz := by simp [zszOf, hc] at f1; exact f1
+  have hzv : pl.zWithVid = true := by simp [zszOf, hc, hs.1] at f2; exact f2
+  have hza : pl.zSigned = true := by simp [zszOf, hc, hs.2] at f3; exact f3
+  have hnv : pl.nWithVid = false := by simp [p11] at f4; exact f4
+  have hna : pl.nSigned = true := by simp [p10, hs.2] at f5; exact f5
+  have hge1 : 1 ≤ (bodies pl.zbz pl.nbz memo).length := by
+    rw [bodies_length pl.zbz pl.nbz memo hne hnb]
+    unfold gramCount; split
+    · exact Nat.le_refl 1
+    · exact Nat.le_add_right 1 _
+  have hcap : grams.length < 64 ^ zs.nz := by
+    rw [hlen, bodies_length pl.zbz pl.nbz memo hne hnb]
+    exact Nat.lt_of_le_of_lt (gramCount_le _ _ _ _ p5 hnb hmms) p4
+  refine ⟨bodies pl.zbz pl.nbz memo, hflat, hlen, hge1, ?_⟩
+  intro i hi vidOf hcase
+  have hib : i < (bodies pl.zbz pl.nbz memo).length := by omega
+  have hgetD : (bodies pl.zbz pl.nbz memo).getD i [] = (bodies pl.zbz pl.nbz memo)[i] := by
+    simp [List.getD_eq_getElem?_getD, List.getElem?_eq_getElem hib]
+  rw [hgetD]
+  cases i with
+  | zero =>
+    have hg := hg0 hib hi
+    simp only [mkGram, hzv, hza, hwz, hwm, hwv, v1, if_true] at hg
+    split at hg
+    · rename_i sig hsig
+      obtain ⟨hsl, hver⟩ := hsv _ sig hsig
+      rw [← Except.ok.inj hg]
+      have hsne : sig ≠ [] := by intro h0; rw [h0] at hsl; simp at hsl; exact hs.2 hsl.symm
+      have := header_roundtrip_zeroth_signed authic vidOf V cfg.code pl.gcnt mid vidt (bodies pl.zbz pl.nbz memo)[0] sig zs grams.length
+        hzs ha1 p6 p3 hcap (by rw [← hnz, ← hc]; exact hcnt) hml hmu hvlen hvne hvu hsl hsne (by simpa [List.append_assoc] using hver)
+      simp only [List.append_assoc] at this ⊢
+      rw [this, hlen]; simp
+    · simp at hg
+  | succ k =>
+    have hvo : vidOf mid = some vidt := by
+      rcases hcase with h0 | h0
+      · omega
+      · exact h0
+    obtain ⟨num, hnum, hg⟩ := hgi k hib hi
+    simp only [mkGram, hnv, hna, hwn, hwm, v1, if_true, Bool.false_eq_true, if_false, List.append_nil] at hg
+    split at hg
+    · rename_i sig hsig
+      obtain ⟨hsl, hver⟩ := hsv _ sig hsig
+      rw [← Except.ok.inj hg]
+      have hsne : sig ≠ [] := by intro h0; rw [h0] at hsl; simp at hsl; exact hs.2 hsl.symm
+      have := (header_roundtrip_later_signed authic vidOf V ncode num mid (bodies pl.zbz pl.nbz memo)[k + 1] sig ns (k + 1)
+        hns ha2 p7 p8 p11 (by omega) (by rw [p1]; omega) (by rw [p1, ← hnz, ← hc]; exact hnum) (by rw [p2]; exact hml) hmu
+        (by rw [p10]; exact hsl) hsne).1 vidt hvo hvne hvu (by simpa [List.append_assoc] using hver)
+      simp only [List.append_assoc] at this ⊢
+      rw [this]; simp
+    · simp at hg
+
+/-- END TO END, SIGNED codes with Base64 text headers, receiver requiring signatures or not, under the guard of K2 (F32) that the zeroth gram
+arrives first: for ANY configuration history ending in a signed code, ANY non-empty memo `rend` accepts for signer id `vidt`, ANY order and
+duplication of the remaining grams, one service call on an empty receiver: the memo is delivered exactly once with the same text, source and
+signer id if and only if every gram is in the sequence; with a gram missing nothing is delivered -/
+theorem end_to_end_signed_b64 (authic : Bool) (cfg : TxCfg) (hleg : Legal cfg) (hc : cfg.curt = false) (sign : Bytes → Bytes → Except Exn Bytes)
+    (memo vidt mid : Bytes) (grams : List Bytes) (hne : memo ≠ []) (hmu : utf8Valid mid = true) (hvu : utf8Valid vidt = true)
+    (hmemo : utf8Valid memo = true)
+    (zs ns : Sizage) (ncode : Bytes) (hzs : sizesOf cfg.code = .ok zs) (hp : lookupPair cfg.code = .ok ncode) (hns : sizesOf ncode = .ok ns)
+    (hs : zs.vz ≠ 0 ∧ zs.az ≠ 0) (V : Bytes → Bytes → Bytes → Except Exn Unit)
+    (hsv : ∀ ser sig, sign vidt ser = .ok sig → sig.length = zs.az ∧ V vidt sig ser = .ok ())
+    (h : rend cfg sign memo (some vidt) mid = .ok grams) (src : Nat) (rest : List Nat) (his : ∀ i ∈ rest, i < grams.length) :
+    ∃ o, serviceAllRx authic V [] ((0 :: rest).map fun i => (grams.getD i [], src)) = .ok o ∧ o.queue = [] ∧
+      ((∀ i, i < grams.length → i ∈ 0 :: rest) → o.delivered = [⟨memo, src, some vidt⟩] ∧ o.entries = []) ∧
+      (¬ (∀ i, i < grams.length → i ∈ 0 :: rest) → o.delivered = []) := by
+  obtain ⟨bs, hflat, hlen, hge, hparse⟩ := grams_parse_b64_signed authic cfg hleg hc sign memo vidt mid grams hne hmu hvu zs ns ncode hzs hp hns hs V hsv h
+  have hpk : ∀ i, i < bs.length → ∀ vidOf : Bytes → Option Bytes, (i = 0 ∨ vidOf mid = some vidt) →
+      pick authic vidOf V (grams.getD i []) = .ok ((⟨mid, bs, src, some vidt⟩ : SMemo).gram i) := by
+    intro i hi vidOf hcase
+    have hig : i < grams.length := by rw [hlen]; exact hi
+    have := hparse i hig vidOf hcase
+    simp only [List.getD_eq_getElem?_getD, List.getElem?_eq_getElem hig, Option.getD_some]
+    rw [this]; rfl
+  have := end_to_end_generic_zeroth_first authic ⟨mid, bs, src, some vidt⟩ hge (by simpa [hflat] using hmemo) V (fun i => grams.getD i [])
+    (fun vidOf => hpk 0 (by omega) vidOf (Or.inl rfl))
+    (fun i hi vidOf hvo => hpk i hi vidOf (Or.inr hvo))
+    rest (by intro i hi; have := his i hi; simpa [← hlen] using this)
+  simpa [hflat, ← hlen] using this
 
 /-- witness for K3 (F33), a concrete test: the same complete set in a second batch is delivered a second time -/
 theorem redelivered_on_full_replay :
